@@ -81,7 +81,9 @@ def kkt_contract(F, pi, upi, lpi, objval):
     return p_and(*t)
 
 
-def user_certificate(sense, variant):
+def user_certificate(sense, ns_variant):
+    variant = ns_variant
+
     def setup(c):
         m = ro.Model()
         x = m.dvar(3)
@@ -96,6 +98,12 @@ def user_certificate(sense, variant):
         k3 = m.st(a3 @ x == c.fresh_real("b3"))
         u = sym_array(c, (3,), "u")
         extra = []
+        variant = ns_variant
+        if variant.endswith("+reformulated"):
+            # history: the model is formulated once BEFORE the bound constraints exist, then again (an ro model registers its
+            # constraints anew at every formulation; the row labels dual() reads must follow)
+            m.do_math()
+            variant = variant[:-len("+reformulated")]
         if variant == "slices":
             bU = m.st(x[1:] <= u[1:])                  # a slice against an array: stored as linear rows
             bU2 = m.st(x[0] <= c.fresh_real("u0"))      # a slice against a number: a bound object
@@ -395,7 +403,7 @@ def ecos_contract(ns, sol):
 
 
 def jobs(tier):
-    js = [{"name": f"certificate-{s}-{v}", "kind": "cert", "sense": s, "variant": v} for s in ("min", "max") for v in ("whole", "slices", "permuted", "permuted-partial")]
+    js = [{"name": f"certificate-{s}-{v}", "kind": "cert", "sense": s, "variant": v} for s in ("min", "max") for v in ("whole", "slices", "permuted", "permuted-partial", "whole+reformulated", "permuted-partial+reformulated")]
     js += [{"name": "unsolved", "kind": "unsolved"}, {"name": "extraction", "kind": "extraction"}, {"name": "extraction-gurobi", "kind": "extraction-gurobi"}]
     return js
 
